@@ -50,4 +50,7 @@ for m in specs:
         shutil.rmtree(root, ignore_errors=True)
 if not only:
     json.dump(results, open(os.path.join(V, 'selftest', 'benign_results.json'), 'w'), indent=1)
+elif os.environ.get('BENIGN_OUT'):
+    # a shard of a full run (tools/benign_all.sh merges the shards into selftest/benign_results.json)
+    json.dump(results, open(os.environ['BENIGN_OUT'], 'w'), indent=1)
 sys.exit(1 if bad else 0)
